@@ -525,6 +525,23 @@ def run_refusals(ctx: Ctx, wd) -> None:
                       line_sink=sink, timeout=5000)
         tlc_must_hold(ctx, f"S2C HugrBuilder refusals {root} K={k} depth<={depth} ops={','.join(ops_)} features={','.join(fe)} args<={ma}"
                       + (f" (every {sk}th state)" if sk > 1 else ""), res, "HugrBuilder model (refusals)")
+    # random walks (thorough): an inconsistent call at positions deep inside long programs with every family enabled
+    if not quick:
+        feats_all = ("load", "nested", "cond", "loop", "func", "cfg", "unit", "insert", "if", "dom", "order", "refuse")
+        seen_keys = set()
+        inner = sink
+
+        def sim_sink(ln):
+            if isinstance(ln, dict) and "refused" in ln:
+                key = json.dumps(ln["hist"])
+                if key not in seen_keys:
+                    seen_keys.add(key)
+                    inner(ln)
+        cur[0] = "RootBQ"
+        res = run_tlc("MC_HugrBuilder", cfg("RootBQ", 14, 3, ops=("Not", "H", "Some"), features=feats_all, samplek=3, emit_refused=True, view=False), wd, workers=8,
+                      heap="8g", line_sink=sim_sink, timeout=5000, simulate="num=150", depth=16, seed=ctx.seed + 5)
+        tlc_must_hold(ctx, "S2C HugrBuilder refusals on random walks RootBQ K=14 depth<=3 all families (every 3rd state)", res, "HugrBuilder model (refusals, simulation)")
+        ctx.note("builder_model_refusals_on_walks", len(seen_keys))
     ctx.note("builder_model_refusals_replayed", n[0])
     ctx.note("builder_model_refusal_classes", dict(seen))
     need = ("AddOp:NoSiblingAncestor", "AddOp:NotInSameCfg", "SetOutputs:ConditionalError", "AddCase:ConditionalError", "ExitConditional:ConditionalError",
